@@ -788,7 +788,11 @@ def broad_oracle(case, obs):
     tr = obs["trace"]
     if not tr or tr[-1][0] not in ("DoReturn", "DoRaise"):
         return "lifecycle events after the run ended (a still-alive doer was not exited before it returned)"
+    starts = [case.get("tyme")] + [a.get("tyme") for a in case.get("again", [])] + [f.get("tyme") for f in case.get("fresh", [])]
     for n, run in enumerate(runs_of(tr)):
+        # a run given a start tyme enters its doers at that tyme
+        if n < len(starts) and starts[n] is not None and run and run[0][0] == "Enter" and fl(run[0][2]) != starts[n]:
+            return f"run {n} was started with tyme {starts[n]} but its first doer was entered at tyme {fl(run[0][2])}"
         last = {}
         for k, i, h in run:
             if k == "Enter":
